@@ -105,6 +105,7 @@ func checkC02(c *Ctx) {
 			}
 		}
 	}
+	micWrappers(c, "R4.wrappers", false)
 	c02WrappersHook(c)
 }
 
